@@ -35,12 +35,15 @@ Definition init (k : nat) : state :=
 Definition wake_all (l : list tstat) : list tstat := map (fun t => match t with Waiting => Ready | t => t end) l.
 Definition T (st : state) (i : nat) : option tstat := nth_error (thr st) i.
 
+(* the comparison of the repaired code (fix of defect D4): `best_result.is_none() || score > best_score` *)
+Definition newbest (st : state) (s : Z) : bool := match best st with None => true | Some _ => bscore st <? s end.
+
 Inductive Step : bool -> state -> state -> Prop :=   (* the flag is false for spurious wake-ups only *)
 | SAcquire st i : lock st = None -> T st i = Some Ready ->
     Step true st (st <| lock := Some i |> <| thr := upd (thr st) i Looping |>)
-| SPopSolve st i l1 n ps l2 : lock st = Some i -> T st i = Some Looping -> pend st = l1 ++ (n, ps) :: l2 -> bscore st < ps ->
+| SPopSolve st i l1 n ps l2 : lock st = Some i -> T st i = Some Looping -> pend st = l1 ++ (n, ps) :: l2 -> (best st = None \/ bscore st < ps) ->
     Step true st (st <| pend := l1 ++ l2 |> <| busy := S (busy st) |> <| lock := None |> <| thr := upd (thr st) i (Solving n) |>)
-| SPopBound st i l1 n ps l2 : lock st = Some i -> T st i = Some Looping -> pend st = l1 ++ (n, ps) :: l2 -> ps <= bscore st ->
+| SPopBound st i l1 n ps l2 : lock st = Some i -> T st i = Some Looping -> pend st = l1 ++ (n, ps) :: l2 -> best st <> None -> ps <= bscore st ->
     Step true st (st <| pend := l1 ++ l2 |> <| n_bnd := S (n_bnd st) |> <| bounded := n :: bounded st |> <| thr := upd (thr st) i AfterItem |>)
 | SExitYes st i : lock st = Some i -> T st i = Some AfterItem -> pend st = [] -> busy st = 0%nat ->
     Step true st (st <| lock := None |> <| thr := upd (wake_all (thr st)) i Done |>)
@@ -54,7 +57,7 @@ Inductive Step : bool -> state -> state -> Prop :=   (* the flag is false for sp
     Step true st (st <| busy := pred (busy st) |> <| lock := Some i |> <| thr := upd (thr st) i AfterItem |>
                 <| solved := n :: solved st |> <| n_ex := S (n_ex st) |> <| n_no := S (n_no st) |>)
 | SFinishFeas st i n x s : lock st = None -> T st i = Some (Solving n) -> f n = Feas x s ->
-    Step true st ((if bscore st <? s then st <| best := Some x |> <| bscore := s |> else st)
+    Step true st ((if newbest st s then st <| best := Some x |> <| bscore := s |> else st)
                 <| busy := pred (busy st) |> <| lock := Some i |> <| thr := upd (thr st) i AfterItem |>
                 <| solved := n :: solved st |> <| n_ex := S (n_ex st) |> <| n_fea := S (n_fea st) |>)
 | SFinishInf st i n cs s : lock st = None -> T st i = Some (Solving n) -> f n = Infeas cs s ->
@@ -242,10 +245,10 @@ Proof.
       apply Permutation_app_head. apply Permutation_app_tail. apply (solvingL_upd_out _ _ _ _ H0). reflexivity.
   - (* FinishFeas *)
     cu H0 AfterItem. specialize (Iln H).
-    assert (Hsame : forall st0 : state, (if bscore st <? s then st <| best := Some x |> <| bscore := s |> else st) = st0 -> 
+    assert (Hsame : forall st0 : state, (if newbest st s then st <| best := Some x |> <| bscore := s |> else st) = st0 -> 
               pend st0 = pend st /\ busy st0 = busy st /\ thr st0 = thr st /\ solved st0 = solved st /\ bounded st0 = bounded st /\
               generated st0 = generated st /\ failed st0 = failed st /\ n_ex st0 = n_ex st /\ n_no st0 = n_no st /\ n_inf st0 = n_inf st /\ n_fea st0 = n_fea st /\ n_bnd st0 = n_bnd st).
-    { intros st0 <-. destruct (bscore st <? s); cbn; repeat split; reflexivity. }
+    { intros st0 <-. destruct (newbest st s); cbn; repeat split; reflexivity. }
     destruct (Hsame _ eq_refl) as (E1&E2&E3&E4&E5&E6&E12&E7&E8&E9&E10&E11).
     constructor; unfold T; cbn; rewrite ?E1, ?E2, ?E3, ?E4, ?E5, ?E6, ?E7, ?E8, ?E9, ?E10, ?E11, ?E12; cbn in *; try lia; try discriminate; auto; try solve [destruct Ist as (?&?&?); repeat split; cbn; lia].
     + intros j Hj. inversion Hj; subst j. exists AfterItem. rewrite nth_error_upd_eq by (eapply nth_error_lt; eauto).
@@ -324,9 +327,11 @@ Proof.
     + (* Looping *)
       destruct (pend st) as [|[n ps] l] eqn:Ep.
       * destruct (busy st) eqn:Eb; [eexists; eapply SEmptyDone; eauto|eexists; eapply SEmptyWait; eauto; lia].
-      * destruct (Z_lt_le_dec (bscore st) ps).
+      * destruct (best st) as [x0|] eqn:Ebst.
+        -- destruct (Z_lt_le_dec (bscore st) ps).
+           ++ eexists. eapply (SPopSolve st i [] n ps l); eauto.
+           ++ eexists. eapply (SPopBound st i [] n ps l); eauto. rewrite Ebst. discriminate.
         -- eexists. eapply (SPopSolve st i [] n ps l); eauto.
-        -- eexists. eapply (SPopBound st i [] n ps l); eauto.
     + (* AfterItem *)
       destruct (pend st) as [|p l] eqn:Ep.
       * destruct (busy st) eqn:Eb; [eexists; eapply SExitYes; eauto|eexists; eapply SExitNo; eauto; right; lia].
@@ -354,7 +359,7 @@ Lemma thr_length k st : Reach k st -> length (thr st) = k.
 Proof.
   intros R. induction R; [apply repeat_length|]. destruct H; cbn; rewrite ?upd_length; auto.
   all: try (unfold wake_all; rewrite map_length; auto).
-  all: try (destruct (bscore st <? s); cbn; rewrite ?upd_length; auto).
+  all: try (destruct (newbest st s); cbn; rewrite ?upd_length; auto).
 Qed.
 
 Theorem final_accounting k st : Reach k st -> (forall i t, T st i = Some t -> t = Done \/ t = Dead) ->
@@ -384,7 +389,6 @@ Hypothesis cov_root : forall t, covers root t.
 Hypothesis cov_nosol : forall n t, f n = NoSol -> ~ covers n t.
 Hypothesis cov_feas : forall n x s t, f n = Feas x s -> covers n t -> value t <= s.
 Hypothesis cov_branch : forall n cs s t, f n = Infeas cs s -> covers n t -> value t <= s /\ exists c, In c cs /\ covers c t.
-Hypothesis val_gt : forall t, smin < value t.     (* needed only for the unfixed code (defect D4) *)
 Hypothesis val_le : forall t, value t <= smax.
 Hypothesis no_panic : forall n, f n <> PanicR.
 
@@ -392,7 +396,7 @@ Definition CovT (st : state) (t : target) : Prop :=
    (best st <> None /\ value t <= bscore st) \/
    (exists n ps, In (n, ps) (pend st) /\ covers n t /\ value t <= ps) \/
    (exists i n, T st i = Some (Solving n) /\ covers n t).
-Definition CovInv (st : state) : Prop := (best st = None -> bscore st = smin) /\ forall t, CovT st t.
+Definition CovInv (st : state) : Prop := forall t, CovT st t.
 
 Lemma T_upd_other st i v j t : T st j = Some t -> i <> j -> nth_error (upd (thr st) i v) j = Some t.
 Proof. intros H Hne. rewrite nth_error_upd_neq by auto. exact H. Qed.
@@ -402,7 +406,7 @@ Lemma cov_keep st st' i told : CovInv st -> T st i = Some told -> isSolving told
   pend st' = pend st -> best st' = best st -> bscore st' = bscore st ->
   (forall j n, j <> i -> T st j = Some (Solving n) -> T st' j = Some (Solving n)) -> CovInv st'.
 Proof.
-  intros [Hb Hc] Hi Hs Ep Eb Es Hthr. split; [rewrite Eb, Es; exact Hb|]. intros t.
+  intros Hc Hi Hs Ep Eb Es Hthr. intros t.
   destruct (Hc t) as [H|[H|(j & n & Hj & Hcov)]].
   - left. rewrite Eb, Es. exact H.
   - right. left. rewrite Ep. exact H.
@@ -410,15 +414,12 @@ Proof.
     intros ->. rewrite Hi in Hj. inversion Hj; subst. discriminate.
 Qed.
 
-Lemma best_some_of_gt st t : CovInv st -> value t <= bscore st -> best st <> None.
-Proof. intros [Hb _] Hv Hn. specialize (Hb Hn). specialize (val_gt t). lia. Qed.
-
 Lemma cov_step b st st' : CovInv st -> Step b st st' -> CovInv st'.
 Proof.
   intros C S. destruct S.
   - eapply (cov_keep st _ i Ready C); eauto. intros j n Hne Hj. unfold T; cbn. apply T_upd_other; auto.
   - (* PopSolve *)
-    destruct C as [Hb Hc]. split; [exact Hb|]. intros t. destruct (Hc t) as [Hx|[(n' & ps' & Hin & Hcov & Hv)|(j & n' & Hj & Hcov)]].
+    intros t. destruct (C t) as [Hx|[(n' & ps' & Hin & Hcov & Hv)|(j & n' & Hj & Hcov)]].
     + left. exact Hx.
     + rewrite H1 in Hin. apply in_app_or in Hin. destruct Hin as [Hin|[Heq|Hin]].
       * right. left. exists n', ps'. cbn. split; [apply in_or_app; left; exact Hin|auto].
@@ -428,11 +429,11 @@ Proof.
     + right. right. exists j, n'. unfold T; cbn. split; [|exact Hcov]. apply T_upd_other; auto.
       intros ->. unfold T in *. rewrite H0 in Hj. discriminate.
   - (* PopBound *)
-    pose proof C as [Hb Hc]. split; [exact Hb|]. intros t. destruct (Hc t) as [Hx|[(n' & ps' & Hin & Hcov & Hv)|(j & n' & Hj & Hcov)]].
+    intros t. destruct (C t) as [Hx|[(n' & ps' & Hin & Hcov & Hv)|(j & n' & Hj & Hcov)]].
     + left. exact Hx.
     + rewrite H1 in Hin. apply in_app_or in Hin. destruct Hin as [Hin|[Heq|Hin]].
       * right. left. exists n', ps'. cbn. split; [apply in_or_app; left; exact Hin|auto].
-      * inversion Heq; subst. left. cbn. split; [|lia]. apply (best_some_of_gt st t C). lia.
+      * inversion Heq; subst. left. cbn. split; [assumption|lia].
       * right. left. exists n', ps'. cbn. split; [apply in_or_app; right; exact Hin|auto].
     + right. right. exists j, n'. unfold T; cbn. split; [|exact Hcov]. apply T_upd_other; auto.
       intros ->. unfold T in *. rewrite H0 in Hj. discriminate.
@@ -443,33 +444,37 @@ Proof.
   - eapply (cov_keep st _ i Looping C); eauto. intros j n Hne Hj. unfold T; cbn. apply T_upd_other; auto.
   - eapply (cov_keep st _ i Looping C); eauto. intros j n Hne Hj. unfold T; cbn. apply T_upd_other; auto.
   - (* FinishNo *)
-    destruct C as [Hb Hc]. split; [exact Hb|]. intros t. destruct (Hc t) as [Hx|[Hx|(j & n' & Hj & Hcov)]].
+    intros t. destruct (C t) as [Hx|[Hx|(j & n' & Hj & Hcov)]].
     + left. exact Hx.
     + right. left. exact Hx.
     + destruct (Nat.eq_dec j i) as [->|Hne].
       * unfold T in *. rewrite H0 in Hj. inversion Hj; subst. exfalso. eapply cov_nosol; eauto.
       * right. right. exists j, n'. unfold T; cbn. split; [|exact Hcov]. apply T_upd_other; auto.
   - (* FinishFeas *)
-    pose proof C as [Hb Hc].
     assert (G : forall t, CovT st t -> (* same witnesses except thread i *)
               (best st <> None /\ value t <= bscore st) \/ (exists n' ps, In (n', ps) (pend st) /\ covers n' t /\ value t <= ps) \/
               (exists j n', j <> i /\ T st j = Some (Solving n') /\ covers n' t) \/ covers n t).
     { intros t [Hx|[Hx|(j & n' & Hj & Hcov)]]; auto. destruct (Nat.eq_dec j i) as [->|Hne].
       - unfold T in *. rewrite H0 in Hj. inversion Hj; subst. auto.
       - right. right. left. exists j, n'. auto. }
-    destruct (bscore st <? s) eqn:E; [apply Z.ltb_lt in E|apply Z.ltb_ge in E].
-    + split; [cbn; discriminate|]. intros t. destruct (G t (Hc t)) as [[Hx Hv]|[Hx|[(j & n' & Hne & Hj & Hcov)|Hcov]]].
+    unfold newbest. destruct (best st) as [x0|] eqn:Eb; [destruct (bscore st <? s) eqn:E; [apply Z.ltb_lt in E|apply Z.ltb_ge in E]|].
+    + intros t. destruct (G t (C t)) as [[Hx Hv]|[Hx|[(j & n' & Hne & Hj & Hcov)|Hcov]]].
       * left. cbn. split; [discriminate|lia].
       * right. left. exact Hx.
       * right. right. exists j, n'. unfold T; cbn. split; [|exact Hcov]. apply T_upd_other; auto.
       * left. cbn. split; [discriminate|]. eapply cov_feas; eauto.
-    + split; [exact Hb|]. intros t. destruct (G t (Hc t)) as [Hx|[Hx|[(j & n' & Hne & Hj & Hcov)|Hcov]]].
-      * left. exact Hx.
+    + intros t. destruct (G t (C t)) as [Hx|[Hx|[(j & n' & Hne & Hj & Hcov)|Hcov]]].
+      * left. cbn. rewrite Eb. exact Hx.
       * right. left. exact Hx.
       * right. right. exists j, n'. unfold T; cbn. split; [|exact Hcov]. apply T_upd_other; auto.
-      * left. cbn. pose proof (cov_feas _ _ _ _ H1 Hcov). split; [|lia]. apply (best_some_of_gt st t C). lia.
+      * left. cbn. rewrite Eb. pose proof (cov_feas _ _ _ _ H1 Hcov). split; [discriminate|lia].
+    + intros t. destruct (G t (C t)) as [[Hx Hv]|[Hx|[(j & n' & Hne & Hj & Hcov)|Hcov]]].
+      * exfalso. apply Hx. reflexivity.
+      * right. left. exact Hx.
+      * right. right. exists j, n'. unfold T; cbn. split; [|exact Hcov]. apply T_upd_other; auto.
+      * left. cbn. split; [discriminate|]. eapply cov_feas; eauto.
   - (* FinishInf *)
-    destruct C as [Hb Hc]. split; [exact Hb|]. intros t. destruct (Hc t) as [Hx|[(n' & ps' & Hin & Hcov & Hv)|(j & n' & Hj & Hcov)]].
+    intros t. destruct (C t) as [Hx|[(n' & ps' & Hin & Hcov & Hv)|(j & n' & Hj & Hcov)]].
     + left. exact Hx.
     + right. left. exists n', ps'. cbn. split; [apply in_or_app; left; exact Hin|auto].
     + destruct (Nat.eq_dec j i) as [->|Hne].
@@ -482,7 +487,7 @@ Qed.
 
 Lemma cov_init k : CovInv (init k).
 Proof.
-  split; [reflexivity|]. intros t. right. left. exists root, smax. cbn. split; [left; reflexivity|]. split; [apply cov_root|apply val_le].
+  intros t. right. left. exists root, smax. cbn. split; [left; reflexivity|]. split; [apply cov_root|apply val_le].
 Qed.
 
 Theorem engine_complete k st : Reach k st -> (0 < k)%nat -> (forall i t, T st i = Some t -> t = Done) ->
@@ -494,7 +499,7 @@ Proof.
   { pose proof (thr_length k st R) as Hl. destruct (thr st) as [|t0 l] eqn:E; [simpl in Hl; lia|]. exists 0%nat.
     rewrite <- (Hall 0%nat t0); unfold T; rewrite E; reflexivity. }
   destruct (final_accounting k st R (fun i t Ht => or_introl (Hall i t Ht)) Hex) as (Hp & _).
-  destruct C as [_ Hc]. destruct (Hc t) as [H|[(n & ps & Hin & _)|(i & n & Hi & _)]].
+  destruct (C t) as [H|[(n & ps & Hin & _)|(i & n & Hi & _)]].
   - exact H.
   - rewrite Hp in Hin. destruct Hin.
   - specialize (Hall i _ Hi). discriminate.
@@ -504,29 +509,111 @@ End Covering.
 (* best is always the output of a solved feasible node, with its score; and dominates all solved feasible scores *)
 Definition BestInv (st : state) : Prop :=
   (forall x, best st = Some x -> exists n, In n (solved st) /\ f n = Feas x (bscore st)) /\
-  (forall n x s, In n (solved st) -> f n = Feas x s -> smin < s -> best st <> None /\ s <= bscore st) /\
-  (best st = None -> bscore st = smin).
+  (forall n x s, In n (solved st) -> f n = Feas x s -> best st <> None /\ s <= bscore st).
 Lemma best_step b st st' : BestInv st -> Step b st st' -> BestInv st'.
 Proof.
-  intros (B1 & B2 & B3) S. destruct S; try (split; [|split]; cbn; assumption).
-  - (* FinishNo *) split; [|split]; cbn; auto.
+  intros (B1 & B2) S. destruct S; try (split; cbn; assumption).
+  - (* FinishNo *) split; cbn; auto.
     + intros x Hx. destruct (B1 x Hx) as (n' & Hin & Hf). exists n'. split; [right; exact Hin|exact Hf].
-    + intros n' x s [->|Hin] Hf Hs; [congruence|eauto].
+    + intros n' x s [->|Hin] Hf; [congruence|eauto].
   - (* FinishFeas *)
-    destruct (bscore st <? s) eqn:E; [apply Z.ltb_lt in E|apply Z.ltb_ge in E]; (split; [|split]); cbn.
+    unfold newbest. destruct (best st) as [x0|] eqn:Eb; [destruct (bscore st <? s) eqn:E; [apply Z.ltb_lt in E|apply Z.ltb_ge in E]|]; split; cbn.
     + intros x' Hx'. inversion Hx'; subst. exists n. split; [left; reflexivity|exact H1].
-    + intros n' x' s' [->|Hin] Hf Hs.
+    + intros n' x' s' [->|Hin] Hf.
       * rewrite H1 in Hf. inversion Hf; subst. split; [discriminate|lia].
-      * destruct (B2 _ _ _ Hin Hf Hs). split; [discriminate|lia].
-    + discriminate.
-    + intros x' Hx'. destruct (B1 x' Hx') as (n' & Hin & Hf). exists n'. split; [right; exact Hin|exact Hf].
-    + intros n' x' s' [->|Hin] Hf Hs; [|eauto].
-      rewrite H1 in Hf. inversion Hf; subst. split; [|lia]. intros Hn. specialize (B3 Hn). lia.
-    + exact B3.
-  - (* FinishInf *) split; [|split]; cbn; auto.
+      * destruct (B2 _ _ _ Hin Hf). split; [discriminate|lia].
+    + rewrite Eb. intros x' Hx'. destruct (B1 x' Hx') as (n' & Hin & Hf). exists n'. split; [right; exact Hin|exact Hf].
+    + rewrite Eb. intros n' x' s' [->|Hin] Hf; [|eauto].
+      rewrite H1 in Hf. inversion Hf; subst. split; [discriminate|lia].
+    + intros x' Hx'. inversion Hx'; subst. exists n. split; [left; reflexivity|exact H1].
+    + intros n' x' s' [->|Hin] Hf.
+      * rewrite H1 in Hf. inversion Hf; subst. split; [discriminate|lia].
+      * destruct (B2 _ _ _ Hin Hf) as [Hne _]. exfalso. apply Hne. reflexivity.
+  - (* FinishInf *) split; cbn; auto.
     + intros x Hx. destruct (B1 x Hx) as (n' & Hin & Hf). exists n'. split; [right; exact Hin|exact Hf].
-    + intros n' x s' [->|Hin] Hf Hs; [congruence|eauto].
+    + intros n' x s' [->|Hin] Hf; [congruence|eauto].
 Qed.
+Lemma best_init k : BestInv (init k).
+Proof. split; cbn; [discriminate|intros n x s []]. Qed.
+Theorem reach_best k st : Reach k st -> BestInv st.
+Proof. induction 1; [apply best_init|eapply best_step; eauto]. Qed.
+
+(* every generated node satisfies any predicate that holds of the root and is inherited by the children of solved nodes *)
+Section NodeInv.
+Variable P : node -> Prop.
+Hypothesis P_root : P root.
+Hypothesis P_child : forall n cs s c, P n -> f n = Infeas cs s -> In c cs -> P c.
+Definition GenInv (st : state) : Prop :=
+  Forall P (generated st) /\ (forall n ps, In (n, ps) (pend st) -> P n) /\ (forall i n, T st i = Some (Solving n) -> P n) /\ Forall P (solved st).
+Lemma gen_step b st st' : GenInv st -> Step b st st' -> GenInv st'.
+Proof.
+  intros (G & Gp & Gs & Gd) S. destruct S; unfold GenInv, T in *; cbn.
+  - repeat split; auto. intros j n Hj. destruct (Nat.eq_dec j i) as [->|Hne].
+    + rewrite nth_error_upd_eq in Hj by (eapply nth_error_lt; eauto). discriminate.
+    + rewrite nth_error_upd_neq in Hj by auto. eauto.
+  - repeat split; auto.
+    + intros n' ps' Hin. apply (Gp n' ps'). rewrite H1. apply in_app_or in Hin. apply in_or_app. destruct Hin; [left|right; right]; assumption.
+    + intros j n' Hj. destruct (Nat.eq_dec j i) as [->|Hne].
+      * rewrite nth_error_upd_eq in Hj by (eapply nth_error_lt; eauto). inversion Hj; subst. apply (Gp n' ps). rewrite H1. apply in_or_app. right. left. reflexivity.
+      * rewrite nth_error_upd_neq in Hj by auto. eauto.
+  - repeat split; auto.
+    + intros n' ps' Hin. apply (Gp n' ps'). rewrite H1. apply in_app_or in Hin. apply in_or_app. destruct Hin; [left|right; right]; assumption.
+    + intros j n' Hj. destruct (Nat.eq_dec j i) as [->|Hne].
+      * rewrite nth_error_upd_eq in Hj by (eapply nth_error_lt; eauto). discriminate.
+      * rewrite nth_error_upd_neq in Hj by auto. eauto.
+  - repeat split; auto. intros j n' Hj. destruct (Nat.eq_dec j i) as [->|Hne].
+    + rewrite nth_error_upd_eq in Hj by (unfold wake_all; rewrite map_length; eapply nth_error_lt; eauto). discriminate.
+    + rewrite nth_error_upd_neq in Hj by auto. rewrite nth_error_wake_all in Hj. destruct (nth_error (thr st) j) as [t|] eqn:E; [|discriminate].
+      destruct t; try discriminate. cbn in Hj. inversion Hj; subst. eauto.
+  - repeat split; auto. intros j n Hj. destruct (Nat.eq_dec j i) as [->|Hne].
+    + rewrite nth_error_upd_eq in Hj by (eapply nth_error_lt; eauto). discriminate.
+    + rewrite nth_error_upd_neq in Hj by auto. eauto.
+  - repeat split; auto. intros j n Hj. destruct (Nat.eq_dec j i) as [->|Hne].
+    + rewrite nth_error_upd_eq in Hj by (eapply nth_error_lt; eauto). discriminate.
+    + rewrite nth_error_upd_neq in Hj by auto. eauto.
+  - repeat split; auto. intros j n Hj. destruct (Nat.eq_dec j i) as [->|Hne].
+    + rewrite nth_error_upd_eq in Hj by (eapply nth_error_lt; eauto). discriminate.
+    + rewrite nth_error_upd_neq in Hj by auto. eauto.
+  - repeat split; auto.
+    + intros j n' Hj. destruct (Nat.eq_dec j i) as [->|Hne].
+      * rewrite nth_error_upd_eq in Hj by (eapply nth_error_lt; eauto). discriminate.
+      * rewrite nth_error_upd_neq in Hj by auto. eauto.
+    + constructor; eauto.
+  - assert (E : forall st0, GenInv st0 -> True) by auto.
+    assert (Hst : forall (st0 : state), generated st0 = generated st -> pend st0 = pend st -> thr st0 = thr st -> solved st0 = solved st ->
+        Forall P (generated st0) /\ (forall n0 ps, In (n0, ps) (pend st0) -> P n0) /\
+        (forall j n0, nth_error (upd (thr st0) i AfterItem) j = Some (Solving n0) -> P n0) /\ Forall P (n :: solved st0)).
+    { intros st0 E1 E2 E3 E4. rewrite E1, E2, E3, E4. repeat split; auto.
+      - intros j n' Hj. destruct (Nat.eq_dec j i) as [->|Hne].
+        + rewrite nth_error_upd_eq in Hj by (eapply nth_error_lt; eauto). discriminate.
+        + rewrite nth_error_upd_neq in Hj by auto. eauto.
+      - constructor; eauto. }
+    destruct (newbest st s); cbn; apply Hst; reflexivity.
+  - assert (Pn : P n) by eauto.
+    assert (Pcs : Forall P cs) by (apply Forall_forall; intros c Hc; eapply P_child; eauto).
+    repeat split.
+    + apply Forall_app. split; assumption.
+    + intros n' ps' Hin. apply in_app_or in Hin. destruct Hin as [Hin|Hin]; [eauto|].
+      apply in_map_iff in Hin. destruct Hin as (c & Hc & Hin). inversion Hc; subst. rewrite Forall_forall in Pcs. auto.
+    + intros j n' Hj. destruct (Nat.eq_dec j i) as [->|Hne].
+      * rewrite nth_error_upd_eq in Hj by (eapply nth_error_lt; eauto). discriminate.
+      * rewrite nth_error_upd_neq in Hj by auto. eauto.
+    + constructor; auto.
+  - repeat split; auto. intros j n' Hj. destruct (Nat.eq_dec j i) as [->|Hne].
+    + rewrite nth_error_upd_eq in Hj by (unfold wake_all; rewrite map_length; eapply nth_error_lt; eauto). discriminate.
+    + rewrite nth_error_upd_neq in Hj by auto. rewrite nth_error_wake_all in Hj. destruct (nth_error (thr st) j) as [t|] eqn:E; [|discriminate].
+      destruct t; try discriminate. cbn in Hj. inversion Hj; subst. eauto.
+  - repeat split; auto. intros j n Hj. destruct (Nat.eq_dec j i) as [->|Hne].
+    + rewrite nth_error_upd_eq in Hj by (eapply nth_error_lt; eauto). discriminate.
+    + rewrite nth_error_upd_neq in Hj by auto. eauto.
+Qed.
+Theorem reach_gen k st : Reach k st -> GenInv st.
+Proof.
+  induction 1; [|eapply gen_step; eauto]. unfold GenInv, T; cbn. repeat split; auto.
+  - intros n ps [E|[]]. inversion E; subst. exact P_root.
+  - intros i n Hi. exfalso. revert i Hi. induction k as [|k' IH]; intros [|i] Hi; cbn in Hi; try discriminate. eauto.
+Qed.
+End NodeInv.
 
 (* ---------- termination: a linear measure ---------- *)
 Section Termination.
@@ -616,8 +703,8 @@ Proof.
   - (* FinishNo *) cbn. pose proof (sumn_wt_upd _ _ _ AfterItem H0). pose proof (cnt_upd notFin _ _ _ AfterItem H0).
     rewrite (sumn_sz_solving_out (thr st) i n AfterItem H0) by reflexivity. cbn in *. pose proof (sz_pos n). lia.
   - (* FinishFeas *)
-    assert (E : forall st0, (if bscore st <? s then st <| best := Some x |> <| bscore := s |> else st) = st0 -> pend st0 = pend st /\ thr st0 = thr st).
-    { intros st0 <-. destruct (bscore st <? s); cbn; auto. }
+    assert (E : forall st0, (if newbest st s then st <| best := Some x |> <| bscore := s |> else st) = st0 -> pend st0 = pend st /\ thr st0 = thr st).
+    { intros st0 <-. destruct (newbest st s); cbn; auto. }
     destruct (E _ eq_refl) as [E1 E2]. cbn. rewrite ?E1, ?E2.
     pose proof (sumn_wt_upd _ _ _ AfterItem H0). pose proof (cnt_upd notFin _ _ _ AfterItem H0).
     rewrite (sumn_sz_solving_out (thr st) i n AfterItem H0) by reflexivity. cbn in *. pose proof (sz_pos n). lia.
